@@ -54,7 +54,12 @@ ASSUMPTIONS = ["attribute names, FriendlyNames and entity ids are ASCII (the mod
                "with entity categories in force the identity has no attribute named '' (the code uses '' as a marker key)",
                "policy configuration keys are distinct after lower-casing; regexes are valid",
                "entity categories decide instead of (not in addition to) the requester's declaration when configured: "
-               "pysaml2's documented design (see notes/C10.md)"]
+               "pysaml2's documented design (see notes/C10.md)",
+               "'failing on missing attributes is in effect' = the caller's explicit choice when there is one (fail_on_missing "
+               "argument; best_effort=True at Server.create_authn_response means 'do not fail'), else the applicable section's "
+               "fail_on_missing_requested (default True)",
+               "a requester about which nothing is known (Policy without metadata store) is in no entity category",
+               "Server.create_authn_response is exercised on its non-PEFIM branch, unsigned, unencrypted"]
 
 URI = "urn:oasis:names:tc:SAML:2.0:attrname-format:uri"
 BASIC = "urn:oasis:names:tc:SAML:2.0:attrname-format:basic"
